@@ -10,15 +10,16 @@
 package c07
 
 import (
-	"encoding"
 	"bytes"
-	stdjson "encoding/json"
+	"encoding"
 	"encoding/json"
+	stdjson "encoding/json"
 	"fmt"
 	"os"
 	"reflect"
 	"runtime"
 	"strings"
+	"unsafe"
 
 	gojson "github.com/goccy/go-json"
 
@@ -137,11 +138,11 @@ func fill(v reflect.Value, salt int) {
 		m.SetMapIndex(k, e)
 		v.Set(m)
 	case reflect.Slice:
-		s := reflect.MakeSlice(v.Type(), 3, 5)
-		for i := 0; i < 3; i++ {
+		s := reflect.MakeSlice(v.Type(), 5, 5)
+		for i := 0; i < 5; i++ { // elements 3 and 4 end up in the spare capacity: not part of the value, must never be written
 			fill(s.Index(i), salt+i)
 		}
-		v.Set(s)
+		v.Set(s.Slice(0, 3))
 	case reflect.Array:
 		for i := 0; i < v.Len(); i++ {
 			fill(v.Index(i), salt+i)
@@ -345,6 +346,22 @@ func (r *runner) check(c Case, counted bool) {
 		return p
 	}
 	before, g, s := mk(), mk(), mk()
+	// spare capacity of the destination's slices (what lies beyond len in the backing array)
+	type spare struct {
+		field int
+		data  unsafe.Pointer
+		full  reflect.Value // copy of [:cap]
+	}
+	var spares []spare
+	for i := 0; i < t.NumField(); i++ {
+		f := g.Elem().Field(i)
+		if f.Kind() == reflect.Slice && f.Cap() > f.Len() {
+			full := f.Slice(0, f.Cap())
+			cp := reflect.MakeSlice(f.Type(), f.Cap(), f.Cap())
+			reflect.Copy(cp, full)
+			spares = append(spares, spare{i, f.UnsafePointer(), cp})
+		}
+	}
 	var gerr error
 	w.Count("calls", 1)
 	rec := wk.Guard(func() {
@@ -386,6 +403,26 @@ func (r *runner) check(c Case, counted bool) {
 			w.DivFine("mem|unaddressed-field-modified|"+kindClass(c.Layout[li])+"|neighbour-"+first+"|"+act, fine, counted,
 				fmt.Sprintf("field F%d is not named by the document but changed from %v to %v", li+1, bf.Interface(), gf.Interface()), c)
 			return
+		}
+	}
+	// (1b) spare capacity: when the backing array is reused, everything beyond both the old and the new length is untouched
+	for _, sp := range spares {
+		f := g.Elem().Field(sp.field)
+		if f.Kind() != reflect.Slice || f.UnsafePointer() != sp.data || f.Cap() != sp.full.Len() {
+			continue
+		}
+		from := 3
+		if f.Len() > from {
+			from = f.Len()
+		}
+		now := f.Slice(0, f.Cap())
+		for k := from; k < f.Cap(); k++ {
+			if !reflect.DeepEqual(now.Index(k).Interface(), sp.full.Index(k).Interface()) {
+				li := sp.field / 2
+				w.DivFine("mem|spare-capacity-modified|"+kindClass(c.Layout[li])+"|"+c.Doc[li], fine, counted,
+					fmt.Sprintf("element %d of F%d's backing array (beyond the old and the new length) changed from %v to %v", k, li+1, sp.full.Index(k).Interface(), now.Index(k).Interface()), c)
+				return
+			}
 		}
 	}
 	// (2) the destination is a walkable Go value
